@@ -274,6 +274,17 @@ def check_gfa1_to_gfa2(doc):
         recs = parse_out(text, "gfa2", how + " output")
         compare_gfa2(src, slen, recs, text, how)
         outs.append(text)
+        # the GFA2 view of a link or containment (beg1, end1, beg2, end2 of the line itself) is what the conversion writes
+        for l in g.edges:
+            try:
+                acc = [str(l.beg1), str(l.end1), str(l.beg2), str(l.end2)]
+                wrote = l.to_gfa2_s().split("\t")[4:8]
+            except GfapyError:
+                continue
+            except Exception as e:
+                raise Violation("conversion-foreign", "positions of %r raised %s: %s" % (str(l), type(e).__name__, str(e)[:200]), type(e).__name__)
+            if acc != wrote:
+                raise Violation("accessors", "%r: beg1, end1, beg2, end2 = %s, converted line has %s" % (str(l), acc, wrote), l.record_type)
     return outs[0]
 
 
@@ -456,6 +467,11 @@ def to_gfa2_doc(r, doc):
         extras.append(["U", ["uu", " ".join(segs[:2])], []])
     if gen.chance(r, 0.5):
         extras.append(["X", ["custom"], [["xx", "i", "1"]]])
+    conts = [l for l in lines if l[0] == "E" and l[1][0] != "*" and M.classify_edge(G.Rec("E", l[1], [], "gfa2"))[0] == "C"]
+    if conts and gen.chance(r, 0.5):
+        # an ordered group over a containment: GFA1 paths go over links, this one has no counterpart
+        e_ = gen.choice(r, conts)
+        extras.append(["O", ["pcont", "%s %s+ %s" % (e_[1][1], e_[1][0], e_[1][2])], []])
     internal = None
     if gen.chance(r, 0.3):
         a, b = segs[0], segs[-1]
@@ -556,7 +572,8 @@ def prop_gfa2(case):
     # per-line conversion of records without counterpart must raise a gfapy.Error
     g = gfapy.Gfa(lines + ([G.Rec.from_plain(internal, "gfa2").text()] if internal else []), version="gfa2", vlevel=1)
     for l in g.lines:
-        if l.record_type in ("G", "F", "U") or l.record_type not in "HSEOGFU#" or (l.record_type == "E" and l.is_internal()):
+        if l.record_type in ("G", "F", "U") or l.record_type not in "HSEOGFU#" or (l.record_type == "E" and l.is_internal()) or (
+                l.record_type == "O" and l.name == "pcont"):
             try:
                 res = l.to_gfa1()
             except GfapyError:
